@@ -115,6 +115,24 @@ func (x *Exec) modelCall(st *State, fr *Frame, ci *ssa.Call, name string, args [
 		st.assume(BvCmp("bvsle", mkBV(0, 64), r))
 		st.assume(BvCmp("bvslt", r, args[0].t()))
 		return scalarSV(ci.Type(), r), true
+	case "strconv.ParseUint":
+		// deterministic function of its arguments; a successful parse fits the requested bit size
+		x.modelled["strconv.ParseUint: uninterpreted function of (string, base, bitSize); err == nil implies value < 2^bitSize"] = true
+		dv := declUF("lib.strconv.ParseUint.val", []*Sort{BV(32), I64, I64}, I64)
+		de := declUF("lib.strconv.ParseUint.errtag", []*Sort{BV(32), I64, I64}, BV(32))
+		dp := declUF("lib.strconv.ParseUint.errval", []*Sort{BV(32), I64, I64}, I64)
+		a := []*Term{args[0].t(), args[1].t(), args[2].t()}
+		val := App(dv, a...)
+		tag, ev := App(de, a...), App(dp, a...)
+		st.assume(Implies(Eq(tag, mkBV(0, 32)), Eq(ev, mkBV(0, 64))))
+		bits := args[2].t()
+		fits := Or(BvCmp("bvsle", bits, mkBV(0, 64)), BvCmp("bvsge", bits, mkBV(64, 64)),
+			Eq(BvBin("bvlshr", val, bits), mkBV(0, 64)))
+		st.assume(Implies(Eq(tag, mkBV(0, 32)), fits))
+		tt := ci.Type().(*types.Tuple)
+		r0 := scalarSV(tt.At(0).Type(), val)
+		r1 := SV{ty: tt.At(1).Type(), l: []*Term{tag, ev}}
+		return SV{ty: tt, l: []*Term{val, tag, ev}, tup: []SV{r0, r1}}, true
 	case "crypto/subtle.ConstantTimeCompare":
 		x.modelled["crypto/subtle.ConstantTimeCompare: 1 iff equal lengths and equal bytes"] = true
 		return x.bytesEqual(st, fr, ci, args[0], args[1], true), true
